@@ -21,6 +21,7 @@ import (
 	"encoding/json"
 	"fmt"
 	"io"
+	"math"
 	"os"
 	"sort"
 	"strconv"
@@ -317,7 +318,10 @@ func runOps(it model.Iterator, root model.Iterator, ops []string, total int) (to
 // ---------------------------------------------------------------------------------------------
 // generators
 
-var tsShapes = []string{"sorted-ties", "all-equal", "unique-interleaved", "unsorted", "sorted-dup-inside", "negative"}
+var tsShapes = []string{"sorted-ties", "all-equal", "unique-interleaved", "unsorted", "sorted-dup-inside", "negative", "int64-extremes"}
+
+// timestamps whose differences do not fit into an int64
+var extremeTs = []int64{math.MinInt64, math.MinInt64 + 1, -1, 0, 1, math.MaxInt64 - 1, math.MaxInt64}
 
 // genLeaves makes k sources with 0..maxLen events each; msg ids encode the source (tags*1000+i) so that attribution is checkable
 func genLeaves(rng *vh.Rng, k, maxLen int, shape string) []leafSpec {
@@ -341,6 +345,8 @@ func genLeaves(rng *vh.Rng, k, maxLen int, shape string) []leafSpec {
 				ts[j] = int64(rng.Range(1, 5))
 			case "negative":
 				ts[j] = int64(rng.Range(-3, 2))
+			case "int64-extremes":
+				ts[j] = rng.PickI64(extremeTs)
 			}
 		}
 		if shape != "unsorted" {
@@ -589,7 +595,7 @@ func runMixerCase(c mixerCase, sec *vh.Section) pending {
 
 func sectionMixer(rng *vh.Rng, corpus []mixerCase) {
 	sec := res.Section("mixer", "unit-correspondence",
-		"real model.Mixer trees (2..6 LogEventIterator/TestLogEventsWrapper leaves, every tree shape) with explicit source order: (a) exhaustive: two leaves of 0..2 events with timestamps in {1,2}, six fixed scripts each plus, at every point k of the stream, Get-without-Next then SetBackward(true) then drain, and the same followed at every later point j by Get, SetBackward(false), drain; (b) seeded random trees/contents (ties, empties, unsorted, negative ts) x fixed scripts + one random script of Get/Next/Release/SetBackward/drain; every answer and the root's (st,eof1,eof2) compared with the Lean model, complete forward/backward drains compared with the Go merge oracle and the property; non-trivial = at least 2 sources and 2 events, distinct by (tree, script)")
+		"real model.Mixer trees (2..6 LogEventIterator/TestLogEventsWrapper leaves, every tree shape) with explicit source order: (a) exhaustive: two leaves of 0..2 events with timestamps in {1,2}, six fixed scripts each plus, at every point k of the stream, Get-without-Next then SetBackward(true) then drain, and the same followed at every later point j by Get, SetBackward(false), drain; (b) seeded random trees/contents (ties, empties, unsorted, negative ts, int64 extremes whose differences overflow) x fixed scripts + one random script of Get/Next/Release/SetBackward/drain; every answer and the root's (st,eof1,eof2) compared with the Lean model, complete forward/backward drains compared with the Go merge oracle and the property; non-trivial = at least 2 sources and 2 events, distinct by (tree, script)")
 	var ps []pending
 	for _, c := range corpus {
 		ps = append(ps, runMixerCase(c, sec))
